@@ -5,6 +5,7 @@ import os
 import re
 import shutil
 import struct
+import tarfile
 import zlib
 
 import common
@@ -223,7 +224,10 @@ def run(tier, seed, build=True):
             if recs:
                 base_out = common.run_s4(["--color", "never", "-t", "+00:00", fname], cwd=work, timeout=180).out
                 conts = {fname + ".gz": gen.gz(blob, level=1), fname + ".xz": gen.xz(blob, 0), fname + ".bz2": gen.bz(blob, 1),
-                         fname + ".lz4": gen.lz4_frame(blob, 10000, content_size=True), "a.tar": gen.tar([("d/" + fname, blob)])}
+                         fname + ".lz4": gen.lz4_frame(blob, 10000, content_size=True), "a.tar": gen.tar([("d/" + fname, blob)]),
+                         # a member path longer than the 100-byte name field of a tar header (as in collected winevt trees)
+                         "long-gnu.tar": gen.tar([("C/Windows/System32/winevt/Logs/" + "Microsoft-Windows-Kernel-PnP%4Configuration-" * 3 + fname, blob)], fmt=tarfile.GNU_FORMAT),
+                         "long-pax.tar": gen.tar([("C/Windows/System32/winevt/Logs/" + "Microsoft-Windows-Kernel-PnP%4Configuration-" * 3 + fname, blob)], fmt=tarfile.PAX_FORMAT)}
                 # an lz4 frame whose blocks follow the file structure (4096-byte header, then one block per 64 KiB chunk)
                 for cn, cb in conts.items():
                     cdir = os.path.join(work, "c_%s_%s" % (name, cn.replace(".", "_")))
